@@ -78,6 +78,56 @@ def edit_tables(rng, svcs, rules):
         else: rules = []
     return kind, sorted_svcs(svcs), sorted_rules(rules)
 
+def det_probes(svcs):
+    """sixteen probe clients over the product of two addresses, hosts, ident answers and accounts (every value a staged rule field may test)"""
+    items = []; cid = 70
+    for addr in ('1.2.3.4', '10.0.0.7'):
+        for host in ('host.example.org', 'a'):
+            for ident in ('ident', 'ab'):
+                for acct in ('bob', 'alice'):
+                    cid += 1
+                    for l in ("C %s %d 10.0.0.1 6667" % (addr, 2000 + cid), "N %s" % host, "u %s" % ident, "n Nick%d" % cid, "U user :Real Name", "P :+x %s pw" % acct):
+                        items.extend(L("%d %s" % (cid, l)))
+                    for n_, t_ in svcs:
+                        items.extend(L("-1 X %s %x_%%SER%d%% :OK %s" % (n_, cid, cid, acct)))
+                    items.extend(L("%d H" % cid))
+                    for n_, t_ in svcs:
+                        items.extend(L("-1 X %s %x_%%SER%d%% :OK" % (n_, cid, cid)))
+                    items.extend(L("%d D" % cid))
+    return items
+
+def staged_family():
+    """a field of one rule goes through several values over consecutive reloads (added by one reload and edited in place by the next;
+    present, removed, re-added, edited): the value in force is always that of the last file"""
+    vals = {'username': ('ident', 'ab*'), 'hostname': ('host.example.org', 'a'), 'address': ('1.2.3.0/24', '10.0.0.0/8'), 'account': ('bob', 'alice'),
+            'class': ('staff2', 'staff3'), 'trust': (True, False)}
+    svcs = sorted_svcs([('login.svc', 'login')])
+    out = []
+    for f, (v1, v2) in vals.items():
+        def tab(v, with_rule=True):
+            r = dict(name='r100', trust=False); r['class'] = 'staff'
+            if f != 'hostname': r['hostname'] = '*'
+            if v is not None: r[f] = v
+            rs = [dict(name='r200', trust=False, **{'class': 'users'})]
+            if with_rule: rs.append(r)
+            return sorted_rules(rs)
+        for label, seq in (("added then edited", [tab(None), tab(v1), tab(v2)]),
+                           ("edited twice", [tab(v1), tab(v2), tab(v1)]),
+                           ("removed, re-added, edited", [tab(v1), tab(None), tab(v2), tab(v1)]),
+                           ("rule added with the field, edited", [tab(None, False), tab(v1), tab(v2)]),
+                           ("added, edited, removed", [tab(None), tab(v1), tab(v2), tab(None)])):
+            out.append(([(svcs, r_) for r_ in seq], "field %s of rule r100: %s" % (f, label)))
+    # the same for the service table: a service added by one reload has its protocol edited in place by the next one (and back)
+    rules = sorted_rules([dict(name='r200', trust=False, **{'class': 'users'})])
+    for t1 in TYPES:
+        for t2 in TYPES:
+            if t1 == t2: continue
+            base = [('login.svc', 'login')]
+            for label, seq in (("added then edited", [base, base + [('s1.x', t1)], base + [('s1.x', t2)]]),
+                               ("removed, re-added, edited", [base + [('s1.x', t1)], base, base + [('s1.x', t2)], base + [('s1.x', t1)]])):
+                out.append(([(sorted_svcs(sv), rules) for sv in seq], "service s1.x %s -> %s: %s" % (t1, t2, label)))
+    return out
+
 def sort_steps(steps):
     return [(sorted(l), n) for l, n in steps]
 
@@ -88,6 +138,11 @@ def run(chk):
     rng = chk.rng
     n = 300 if chk.tier == "quick" else 3000
     cases = []
+    for seq, label in staged_family():
+        pr = det_probes(seq[-1][0])
+        reloaded = Scn(True, True, seq[0][0], seq[0][1], 0, [('R', s_, r_, 0) for s_, r_ in seq[1:]] + fix_serials(pr, 0), "staged: " + label)
+        fresh = Scn(True, True, seq[-1][0], seq[-1][1], 0, fix_serials(pr, 0), "fresh daemon on the final file")
+        cases.append((reloaded, fresh, len(seq) - 1)); chk.hist("edit:staged")
     for _ in range(n):
         svcs, rules = gen_tables(rng, dict(p_rules=0.8))
         stages = [(svcs, rules)]
@@ -142,7 +197,7 @@ def run(chk):
         sigusr1(chk, impl, rng)
     chk.cov["distinct_nontrivial"] = len(distinct)
     chk.cov["samples"] = [cases[0][0].describe().split("\n")[:40]]
-    chk.cov["rule"] = "(old, new) service and rule tables over every edit kind (add, remove, change protocol in place, change a rule field, add/remove rule, replace, unchanged, empty section), chains of 1-3 reloads with earlier clients holding references to slots; afterwards probe clients exercise every service and rule; the reloaded daemon must answer exactly like a daemon started fresh on the final file (lines within a step compared as sets, serials erased); distinct = distinct probe conversations"
+    chk.cov["rule"] = "(old, new) service and rule tables over every edit kind (add, remove, change protocol in place, change a rule field, add/remove rule, replace, unchanged, empty section), chains of 1-3 reloads with earlier clients holding references to slots; a staged family in which one field of one rule is added by one reload and edited in place by the next (also removed / re-added / edited, for each of six fields) probed by sixteen clients over the product of the tested values; afterwards probe clients exercise every service and rule; the reloaded daemon must answer exactly like a daemon started fresh on the final file (lines within a step compared as sets, serials erased); distinct = distinct probe conversations"
 
 def sigusr1(chk, impl, rng):
     """the un-hooked path: a real SIGUSR1"""
